@@ -747,15 +747,19 @@ package vm
 //@   requires memInv(m) && size <= 274877906944
 //@   modifies m.store
 //@   ensures len(m.store) == max(old(len(m.store)), size) && memInv(m)
+//@   atcall Put requires false
 //@   ensures forall i int :: 0 <= i && i < old(len(m.store)) ==> m.store[i] == old(m.store[i])
 //@   ensures forall i int :: old(len(m.store)) <= i && i < len(m.store) ==> m.store[i] == 0
 
-// Free clears what the program wrote before the object goes back to the pool.
+// Free clears what the program wrote before the object goes back to the pool: whatever is
+// handed to the pool is empty, has no cached gas figure and is zero up to its capacity.
+// Resize (and everything else) never pools anything.
 //@ func (m *Memory) Free()
 //@   serves C28
 //@   requires memInv(m)
 //@   modifies m.store, m.lastGasCost, m.store[..]
 //@   ensures old(cap(m.store)) <= 16384 ==> len(m.store) == 0 && m.lastGasCost == 0 && memInv(m)
+//@   atcall Put requires len(m.store) == 0 && m.lastGasCost == 0 && memInv(m)
 
 //@ func (m *Memory) Set(offset, size uint64, value []byte)
 //@   serves C27 C28
@@ -852,3 +856,128 @@ package vm
 //@   modifies sa.data
 //@   ensures isfresh(s) && s.inner == sa && s.bottom == sa.top && s.size == 0 && stackInv(s)
 //@   ensures sa.top == old(sa.top)
+
+// ================================================================ C30: jump destination analysis
+
+// Bit q of the push-data bit vector. Proofs of the five bit-vector helpers below are done in
+// the bit-vector mode from this definition; their callers (integer mode) see isSet as an
+// uninterpreted function of the vector's bytes and reason from the helpers' contracts alone.
+//@ opaque pure func isSet(bits BitVec, q uint64) bool { return (bits[q / 8] >> (q % 8)) & 1 == 1 }
+// number of one bits in the masks setN is called with
+//@ pure func maskBits(flag uint16) int { return ite(flag == 3, 2, ite(flag == 7, 3, ite(flag == 15, 4, ite(flag == 31, 5, ite(flag == 63, 6, ite(flag == 127, 7, 0)))))) }
+
+//@ func (bits BitVec) set1(pos uint64)
+//@   serves C30
+//@   arith bv
+//@   requires pos / 8 < len(bits)
+//@   modifies bits[..]
+//@   ensures forall q uint64 :: isSet(bits, q) == (old(isSet(bits, q)) || q == pos)
+
+// setN, set8 and set16 overwrite (not OR) the following byte(s): correct because every bit from
+// pos upward is still clear when they are called.
+//@ func (bits BitVec) setN(flag uint16, pos uint64)
+//@   serves C30
+//@   arith bv
+//@   requires maskBits(flag) >= 2 && pos / 8 + 1 < len(bits)
+//@   requires forall q uint64 :: q >= pos ==> !isSet(bits, q)
+//@   modifies bits[..]
+//@   ensures forall q uint64 :: isSet(bits, q) == (old(isSet(bits, q)) || (pos <= q && q < pos + maskBits(flag)))
+
+//@ func (bits BitVec) set8(pos uint64)
+//@   serves C30
+//@   arith bv
+//@   requires pos / 8 + 1 < len(bits)
+//@   requires forall q uint64 :: q >= pos ==> !isSet(bits, q)
+//@   modifies bits[..]
+//@   ensures forall q uint64 :: isSet(bits, q) == (old(isSet(bits, q)) || (pos <= q && q < pos + 8))
+
+//@ func (bits BitVec) set16(pos uint64)
+//@   serves C30
+//@   arith bv
+//@   requires pos / 8 + 2 < len(bits)
+//@   requires forall q uint64 :: q >= pos ==> !isSet(bits, q)
+//@   modifies bits[..]
+//@   ensures forall q uint64 :: isSet(bits, q) == (old(isSet(bits, q)) || (pos <= q && q < pos + 16))
+
+//@ func (bits *BitVec) codeSegment(pos uint64) (code bool)
+//@   serves C30
+//@   arith bv
+//@   requires pos / 8 < len(*bits)
+//@   ensures code == !isSet(*bits, pos)
+
+// The bytecode definition: an instruction starting at p with opcode PUSHn (0x60..0x7f) owns the
+// n following bytes as immediate data. scan(code, p, q): scanning from the instruction boundary
+// p, position q lies in the immediate data of some PUSH. isData is the scan from position 0.
+//@ pure func pushLen(op int) int { return ite(96 <= op && op <= 127, op - 95, 0) }
+//@ pure func scan(code BitVec, p int, q int) bool { return ite(p >= len(code) || q <= p || p < 0, false, ite(q <= p + pushLen(code[p]), true, scan(code, p + 1 + pushLen(code[p]), q))) }
+//@ pure func isData(code BitVec, q int) bool { return scan(code, 0, q) }
+
+// codeBitmapInternal sets exactly the bits of the positions that are push data, for every
+// bytecode, given a zeroed vector of the size codeBitmap allocates.
+//@ func codeBitmapInternal(code, bits BitVec) (out BitVec)
+//@   serves C30
+//@   requires len(bits) == len(code) / 8 + 5 && noalias(code, bits)
+//@   requires forall q uint64 :: !isSet(bits, q)
+//@   modifies bits[..]
+//@   ensures out == bits
+//@   ensures forall q uint64 :: isSet(out, q) == isData(code, q)
+//@   loop 1 "pc < uint64(len(code))"
+//@     invariant 0 <= pc && pc <= len(code) + 32
+//@     invariant forall q uint64 :: {scan(code, 0, q)} q >= pc ==> scan(code, 0, q) == scan(code, pc, q)
+//@     invariant forall q uint64 :: {isSet(bits, q)} q < pc ==> isSet(bits, q) == scan(code, 0, q)
+//@     invariant forall q uint64 :: {isSet(bits, q)} q >= pc ==> !isSet(bits, q)
+//@   loop 2 "numbits >= 16"
+//@     invariant 96 <= op && op <= 127 && 0 <= numbits && numbits <= op - 95 && pc + numbits <= len(code) + 32 && (op - 95 - numbits) % 8 == 0
+//@     invariant 0 <= pc - 1 - (op - 95 - numbits) && pc - 1 - (op - 95 - numbits) < len(code) && code[pc - 1 - (op - 95 - numbits)] == op
+//@     invariant forall q uint64 :: {scan(code, 0, q)} q >= pc - 1 - (op - 95 - numbits) ==> scan(code, 0, q) == scan(code, pc - 1 - (op - 95 - numbits), q)
+//@     invariant forall q uint64 :: {isSet(bits, q)} q < pc - 1 - (op - 95 - numbits) ==> isSet(bits, q) == scan(code, 0, q)
+//@     invariant forall q uint64 :: {isSet(bits, q)} q >= pc - 1 - (op - 95 - numbits) ==> isSet(bits, q) == (pc - 1 - (op - 95 - numbits) < q && q < pc)
+//@   loop 3 "numbits >= 8"
+//@     invariant 96 <= op && op <= 127 && 0 <= numbits && numbits <= op - 95 && numbits < 16 && pc + numbits <= len(code) + 32 && (op - 95 - numbits) % 8 == 0
+//@     invariant 0 <= pc - 1 - (op - 95 - numbits) && pc - 1 - (op - 95 - numbits) < len(code) && code[pc - 1 - (op - 95 - numbits)] == op
+//@     invariant forall q uint64 :: {scan(code, 0, q)} q >= pc - 1 - (op - 95 - numbits) ==> scan(code, 0, q) == scan(code, pc - 1 - (op - 95 - numbits), q)
+//@     invariant forall q uint64 :: {isSet(bits, q)} q < pc - 1 - (op - 95 - numbits) ==> isSet(bits, q) == scan(code, 0, q)
+//@     invariant forall q uint64 :: {isSet(bits, q)} q >= pc - 1 - (op - 95 - numbits) ==> isSet(bits, q) == (pc - 1 - (op - 95 - numbits) < q && q < pc)
+
+// A vector whose bytes are all zero has no bit set (proved in the bit-vector mode; applied
+// where codeBitmap hands a freshly made vector to codeBitmapInternal).
+//@ func verifLemmaZeroVector(bits BitVec)
+//@   serves C30
+//@   arith bv
+//@   requires forall k uint64 :: bits[k] == 0
+//@   ensures forall q uint64 :: !isSet(bits, q)
+
+func verifLemmaZeroVector(bits BitVec) {}
+
+//@ func codeBitmap(code []byte) (out BitVec)
+//@   serves C30
+//@   requires len(code) <= 17592186044416
+//@   ensures isfresh(out) && len(out) == len(code) / 8 + 5
+//@   ensures forall q uint64 :: isSet(out, q) == isData(code, q)
+//@   atcall codeBitmapInternal#1 lemma verifLemmaZeroVector(arg2)
+
+// The analysis cached in a contract, when there is one, is the analysis of that contract's code.
+//@ pure func analysisOK(c *Contract) bool { return len(c.analysis) > 0 ==> (len(c.analysis) == len(c.Code) / 8 + 5 && (forall q uint64 :: isSet(c.analysis, q) == isData(c.Code, q))) }
+
+// isCode: a position is code exactly when it is not push data. Proved for the two paths that
+// do not go through the shared cache (an analysis is already attached, or the code has no hash
+// and is analysed on the spot); the cache path relies on the cache holding, under a code hash,
+// the analysis of the code with that hash, which no contract here can state.
+//@ func (c *Contract) isCode(udest uint64) (code bool)
+//@   serves C30
+//@   requires analysisOK(c) && udest < len(c.Code) && len(c.Code) <= 17592186044416
+//@   requires (c.analysis == nil) == (len(c.analysis) == 0)
+//@   modifies c.analysis
+//@   mutates
+//@   ensures len(old(c.analysis)) > 0 || iszero(c.CodeHash) ==> code == !isData(c.Code, udest) && analysisOK(c) && len(c.analysis) > 0
+//@   atcall codeSegment#2 assume udest / 8 < len(analysis)
+
+// validJumpdest accepts exactly the in-range positions that hold JUMPDEST (0x5b) and are not
+// inside the immediate data of a PUSH.
+//@ func (c *Contract) validJumpdest(dest *uint256.Int) (ok bool)
+//@   serves C30
+//@   requires analysisOK(c) && len(c.Code) <= 17592186044416
+//@   requires (c.analysis == nil) == (len(c.analysis) == 0)
+//@   modifies c.analysis
+//@   mutates
+//@   ensures len(old(c.analysis)) > 0 || iszero(c.CodeHash) ==> ok == (u256val(dest) < len(c.Code) && c.Code[u256val(dest)] == 91 && !isData(c.Code, u256val(dest)))
